@@ -681,6 +681,147 @@ async def dynports_scenario(sc):
     return bad
 
 
+class Ident(asyncio.Protocol):
+    """A destination that answers every connection with its own identity and then half-closes."""
+
+    def __init__(self, ident, seen):
+        self.ident, self.seen = ident, seen
+        self.buf = bytearray()
+
+    def connection_made(self, transport):
+        self.tr = transport
+        self.seen.append(self)
+        transport.write(self.ident)
+        transport.write_eof()
+
+    def data_received(self, data):
+        self.buf += data
+
+    def eof_received(self):
+        self.tr.close()
+
+
+def free_port():
+    s = socket.socket()
+    s.bind(('127.0.0.1', 0))
+    p = s.getsockname()[1]
+    s.close()
+    return p
+
+
+async def multi_remote_scenario(sc):
+    """sc = {'multi_remote': ['fixed'|'dyn', ...]}: several forward_remote_port on ONE connection and the same
+    listen host, each to its own destination which answers with its identity; every connection accepted by a
+    listener must reach that listener's destination."""
+    import asyncssh
+    loop = asyncio.get_running_loop()
+    bad = []
+    base0 = sock_fds()
+    tun, wire, acc, conn = await memwire.connected_pair(make_server_class(asyncssh))
+    dsrvs, lsts, seen = [], [], []
+    for i, kind in enumerate(sc['multi_remote']):
+        ident = b'DEST-%d-%s\n' % (i, kind.encode()) + payload(i, 3000)
+        ds = await loop.create_server(lambda ident=ident: Ident(ident, seen), '127.0.0.1', 0)
+        dsrvs.append((ds, ident))
+        lport = free_port() if kind == 'fixed' else 0
+        l = await conn.forward_remote_port('127.0.0.1', lport, '127.0.0.1', ds.sockets[0].getsockname()[1])
+        lsts.append(l)
+    for rnd in range(2):
+        for i, l in enumerate(lsts):
+            cli = Rec()
+            await loop.create_connection(lambda: cli, '127.0.0.1', l.get_port())
+            cli.tr.write(b'hello-%d' % i)
+            if not await until(cli.ended):
+                bad.append('no answer through listener %d (%s, port %d)' % (i, sc['multi_remote'][i], l.get_port()))
+            elif bytes(cli.buf) != dsrvs[i][1]:
+                got = bytes(cli.buf[:24])
+                bad.append('connection to listener %d (%s, port %d) was relayed to another destination: got %r, expected %r'
+                           % (i, sc['multi_remote'][i], l.get_port(), got, dsrvs[i][1][:24]))
+            cli.tr.close()
+    conn.close()
+    try:
+        await asyncio.wait_for(conn.wait_closed(), BACKSTOP)
+    except Exception:
+        bad.append('connection did not close')
+    for ds, _ in dsrvs:
+        ds.close()
+        await ds.wait_closed()
+    for d in seen:
+        d.tr.close()
+    await until(lambda: sock_fds() <= base0, 2.0)
+    return bad
+
+
+async def socks_strict_scenario(sc):
+    """sc = {'socks_strict': 'v4'|'v6'|'name', 'n': payload size}: a strict RFC 1928 client (consumes exactly the
+    reply length implied by the reply's address type) against forward_socks; the destination starts sending at once;
+    the relayed stream after the reply must be complete and unshifted."""
+    import asyncssh
+    loop = asyncio.get_running_loop()
+    bad = []
+    seen = []
+    body = payload(7, sc.get('n', 5000))
+    ds = await loop.create_server(lambda: Ident(body, seen), '127.0.0.1', 0)
+    dport = ds.sockets[0].getsockname()[1]
+    base = make_server_class(asyncssh)
+
+    class Srv(base):
+        def connection_made(self, c):
+            self._c = c
+
+        def connection_requested(self, dh, dp, oh, op):
+            # whatever address form the SOCKS client used, the test destination lives on 127.0.0.1
+            return self._c.forward_connection('127.0.0.1', dp)
+    tun, wire, acc, conn = await memwire.connected_pair(Srv)
+    l = await conn.forward_socks('127.0.0.1', 0)
+    r, w = await asyncio.open_connection('127.0.0.1', l.get_port())
+    pb = struct.pack('>H', dport)
+    addr = {'v4': b'\x01' + bytes([127, 0, 0, 1]), 'v6': b'\x04' + bytes(15) + b'\x01',
+            'name': b'\x03' + bytes([9]) + b'localhost'}[sc['socks_strict']]
+    w.write(b'\x05\x01\x00' + b'\x05\x01\x00' + addr + pb + b'from-client')
+    w.write_eof()
+    try:
+        async def strict():
+            m = await r.readexactly(2)
+            if m != b'\x05\x00':
+                return 'method reply %r' % m
+            h = await r.readexactly(4)
+            if h[:3] != b'\x05\x00\x00':
+                return 'reply header %r' % h
+            if h[3] == 1:
+                await r.readexactly(4 + 2)
+            elif h[3] == 4:
+                await r.readexactly(16 + 2)
+            elif h[3] == 3:
+                n = (await r.readexactly(1))[0]
+                await r.readexactly(n + 2)
+            else:
+                return 'reply address type %d' % h[3]
+            return await r.read(-1)
+        got = await asyncio.wait_for(strict(), BACKSTOP)
+    except (asyncio.IncompleteReadError, asyncio.TimeoutError) as e:
+        got = 'reply shorter than its address type implies (%s)' % type(e).__name__
+    if isinstance(got, str):
+        bad.append('SOCKS5 %s: %s' % (sc['socks_strict'], got))
+    elif got != body:
+        bad.append('SOCKS5 %s: relayed stream after the reply is not what the destination sent: %d of %d bytes, starts %r, expected %r'
+                   % (sc['socks_strict'], len(got), len(body), got[:12], body[:12]))
+    if not await until(lambda: seen and bytes(seen[0].buf) == b'from-client', 2.0):
+        bad.append('SOCKS5 %s: destination got %r' % (sc['socks_strict'], bytes(seen[0].buf) if seen else None))
+    w.close()
+    conn.close()
+    try:
+        await asyncio.wait_for(conn.wait_closed(), BACKSTOP)
+    except Exception:
+        bad.append('connection did not close')
+    ds.close()
+    await ds.wait_closed()
+    for d in seen:
+        d.tr.close()
+    await memwire.settle(10)
+    return bad
+
+
 # ------------------------------------------------------------------------------------------------
 # registry correspondence: RBegin / RFinish / RClose / RCleanup on a real client connection
 
